@@ -1,11 +1,14 @@
 package c12
 
 import (
+	"bytes"
+	"compress/gzip"
 	"fmt"
 	"io"
 	"net"
 	"net/http"
 	"net/http/httptest"
+	"strconv"
 	"strings"
 	"sync/atomic"
 	"time"
@@ -27,6 +30,23 @@ type ReusePlan struct {
 	BodyLen int    `json:"body_len"` // response body length (more than the transport has read ahead)
 	Reader  string `json:"reader"`   // none | partial | copyfail
 	Calls   int    `json:"calls"`    // 2..4 sequential calls
+	// Gzip: the server answers with Content-Encoding: gzip and a Content-Length (a pre-compressed asset); net/http's
+	// transport inflates it for the client, which then sees a body of unknown length on a connection that is reusable
+	// all the same. (r8)
+	Gzip bool `json:"gzip,omitempty"`
+}
+
+// noise is incompressible enough for the compressed entity to stay far larger than what a transport reads ahead.
+func noise(n int) []byte {
+	b := make([]byte, n)
+	x := uint32(2463534242)
+	for i := range b {
+		x ^= x << 13
+		x ^= x >> 17
+		x ^= x << 5
+		b[i] = byte(x)
+	}
+	return b
 }
 
 var reuseBuilds = []string{"new", "new+transport", "withclient", "withclient-notransport"}
@@ -38,8 +58,22 @@ func CheckReuse(p ReusePlan) *kit.Violation {
 	}
 	var conns int32
 	body := strings.Repeat("r", p.BodyLen)
-	srv := httptest.NewUnstartedServer(http.HandlerFunc(func(w http.ResponseWriter, _ *http.Request) {
+	var packed []byte
+	if p.Gzip {
+		var zb bytes.Buffer
+		zw := gzip.NewWriter(&zb)
+		_, _ = zw.Write(noise(p.BodyLen))
+		_ = zw.Close()
+		packed = zb.Bytes()
+	}
+	srv := httptest.NewUnstartedServer(http.HandlerFunc(func(w http.ResponseWriter, rq *http.Request) {
 		w.Header().Set("Content-Type", "application/octet-stream")
+		if p.Gzip && strings.Contains(rq.Header.Get("Accept-Encoding"), "gzip") {
+			w.Header().Set("Content-Encoding", "gzip")
+			w.Header().Set("Content-Length", strconv.Itoa(len(packed)))
+			_, _ = w.Write(packed)
+			return
+		}
 		_, _ = w.Write([]byte(body))
 	}))
 	srv.Config.ConnState = func(_ net.Conn, s http.ConnState) {
@@ -110,8 +144,8 @@ func CheckReuse(p ReusePlan) *kit.Violation {
 		}
 	}
 	if n := atomic.LoadInt32(&conns); n != 1 {
-		return kit.Failf("NOT-REUSED: connection reuse is enabled (transport built as %q) and %d sequential calls, each leaving %d unread response bytes (reader %q), used %d connections: the bodies were not drained before they were closed",
-			p.Build, p.Calls, p.BodyLen, p.Reader, n)
+		return kit.Failf("NOT-REUSED: connection reuse is enabled (transport built as %q) and %d sequential calls, each leaving %d unread response bytes (reader %q, gzip entity with Content-Length: %v), used %d connections: the bodies were not drained before they were closed",
+			p.Build, p.Calls, p.BodyLen, p.Reader, p.Gzip, n)
 	}
 	return nil
 }
@@ -126,6 +160,7 @@ func GenReuse(t *rapid.T) ReusePlan {
 		BodyLen: rapid.SampledFrom([]int{70000, 200000, 300000, 1 << 20}).Draw(t, "bodylen"),
 		Reader:  rapid.SampledFrom([]string{"none", "none", "partial", "copyfail"}).Draw(t, "reader"),
 		Calls:   rapid.IntRange(2, 4).Draw(t, "calls"),
+		Gzip:    rapid.IntRange(0, 2).Draw(t, "gzip-with-content-length") == 0,
 	}
 }
 
@@ -142,7 +177,11 @@ func EnumReuse(yield func(ReusePlan) bool) {
 }
 
 func ClassifyReuse(p ReusePlan) (bool, []string) {
-	return true, []string{"transport built as " + p.Build, "reader " + p.Reader, fmt.Sprintf("unread bytes %d", p.BodyLen)}
+	l := []string{"transport built as " + p.Build, "reader " + p.Reader, fmt.Sprintf("unread bytes %d", p.BodyLen)}
+	if p.Gzip {
+		l = append(l, "gzip entity with Content-Length, inflated by the transport")
+	}
+	return true, l
 }
 
 const ruleReuse = "2-4 sequential calls through net/http's real transport against a loopback server that counts accepted connections; transport put together as client.New (default transport) / New + own Transport / NewWithClient with a client that has a transport / NewWithClient with a client that has none, " +
